@@ -5,7 +5,7 @@ from vt import boot, docgen, exec_common as X, harness, refexec, sched as S, smo
 from vt.values import canon
 
 LEVEL = "exploration"
-N_CASES = {"quick": 256, "thorough": 6400}
+N_CASES = {"quick": 256, "thorough": 3000}
 CAP = {"quick": 30, "thorough": 300}
 BATCHES_PER_SCHEMA = 3
 MIN_NONTRIVIAL = 30
